@@ -97,12 +97,25 @@ def register(prop):
          "containment routine); alive from a disallowed source leaves the full digest unchanged; non-trivial = allowlist configured and >=1 claim had to be rejected; distinct = distinct (list, prior, script)",
          assumptions=["an empty non-nil CIDRsAllowed is treated as 'no allowlist' (that is what the code and the pinned tests do; the doc comment disagrees) - generated, must not panic, nothing else asserted"])
 
+    prop("C14", [dict(scn="C14", quick=1500, thorough=100000, wall_quick=120, wall_thorough=2400)],
+         "bench mode: genuine traffic of every type (ping, indirect ping, ack, nack, alive, suspect, dead, user, compound; user / push-pull / TCP-ping streams) produced by a real sender's "
+         "own send pipeline, captured at the tap and injected into a quiescent real receiver (tickers off) as: every single-bit flip of every byte incl. label header, version byte, nonce, "
+         "body, tag and stream length prefix (complete enumeration per sampled message); plaintext original; sealed under a foreign / removed / installed-then-removed key or another label; "
+         "label stripped/added/doubled; truncations, splices of two ciphertexts, overwrites, extensions; oracle per variant: reaction (membership digest, delegate calls, events, decoded "
+         "replies/acks/relays, stream reply class) is NOTHING (a rejected stream may get the generic error reply) or IDENTICAL to the reaction to the original; keys 16/24/32, protocol 1/2/5 "
+         "(encryption v0/v1), 0-2 extra installed keys, label, compression; non-trivial = >=1 variant judged; distinct = distinct (message type, mode, configuration)",
+         assumptions=["reactions are compared on decoded plaintext (nonces differ); receivers are pristine instances re-created after every accepted variant"])
+
 NOT_CLAIMED = {}
 
 SIM_NOTE = ("trusted base: Go runtime + testing/synctest fake clock, the harness (scheduler, SimNet, oracles) under /verif/sim; "
             "assumes the guarded yield sites are the relevant preemption points; seeded search, not proof")
 
 META = {
+ "C14": dict(
+    level_text="Capture-mutate-inject differential on real nodes: each tampered copy of genuine traffic must cause either no observable reaction or exactly the reaction of the original; complete single-bit-flip enumeration per sampled message plus structural and random variants, over seeded configurations.",
+    design_ref="DESIGN.md §3 C14", level_note=SIM_NOTE,
+    technique="deterministic simulation (bench mode): captured genuine traffic, exhaustive bit-flip / structural mutation, reaction-differential oracle on a quiescent real receiver"),
  "C18": dict(
     level_text="Seeded claim scripts through every admission path (UDP, compound, compressed, piggyback, real push/pull streams, direct merge) against a real node with generated allowlists; invariant checked after every step with an independent containment routine.",
     design_ref="DESIGN.md §3 C18", level_note=SIM_NOTE,
